@@ -310,6 +310,19 @@ def readDirNames (root : Node) (path : Bytes) : Option (List Name) :=
   | some (.dir ents) => some (sortNames ents.names)
   | _ => none
 
+/-- what a directory entry is called on a real file system: not empty, no `/`, no NUL, not `.` or `..` -/
+def NormalName (n : Name) : Prop := n ≠ [] ∧ (47 : UInt8) ∉ n ∧ (0 : UInt8) ∉ n ∧ n ≠ dot ∧ n ≠ dotdot
+
+mutual
+  /-- a well-formed tree: every entry has a proper name, names within a directory are distinct -/
+  def Node.WF : Node → Prop
+    | .dir e => e.WF
+    | _ => True
+  def Ents.WF : Ents → Prop
+    | .nil => True
+    | .cons n node rest => NormalName n ∧ n ∉ rest.names ∧ node.WF ∧ rest.WF
+end
+
 /-! ## `filepath.Clean`, `Join`, `Split` -/
 
 def intercalateSlash : List Bytes → Bytes
@@ -317,18 +330,21 @@ def intercalateSlash : List Bytes → Bytes
   | [a] => a
   | a :: b :: rest => a ++ 47 :: intercalateSlash (b :: rest)
 
+/-- what `Clean` does with one component, given the components kept so far -/
+def cleanStep (rooted : Bool) (stack : List Bytes) (c : Bytes) : List Bytes :=
+  if c = [] ∨ c = dot then stack
+  else if c = dotdot then
+    if stack ≠ [] ∧ stack.getLast? ≠ some dotdot then stack.dropLast
+    else if rooted then stack
+    else stack ++ [dotdot]
+  else stack ++ [c]
+
 /-- `filepath.Clean` (component-wise formulation) -/
 def clean (path : Bytes) : Bytes :=
   if path = [] then dot
   else
-    let rooted := path.head? = some 47
-    let out := (splitSlash path).foldl (fun (stack : List Bytes) c =>
-      if c = [] ∨ c = dot then stack
-      else if c = dotdot then
-        if stack ≠ [] ∧ stack.getLast? ≠ some dotdot then stack.dropLast
-        else if rooted then stack
-        else stack ++ [dotdot]
-      else stack ++ [c]) []
+    let rooted : Bool := path.head? = some 47
+    let out := (splitSlash path).foldl (cleanStep rooted) []
     let s := intercalateSlash out
     if rooted then 47 :: s else if s = [] then dot else s
 
